@@ -6,6 +6,7 @@ TECH="bounded symbolic execution of go/ssa + SMT (z3 5.1 incremental; cvc5/z3 po
 NOTE="Trusted: go/ssa as IR of the current tree, the executor's instruction semantics and listed intrinsics, the SMT solvers, the reference models written in the harness files. Bounds are listed in the evidence; solver unknown/time-out is never success."
 claims={
  "C01":("For symbolic well-formed PE32/PE32+ images (every byte, the length, SizeOfHeaders, all section offsets/sizes in any order, certificate directory and trailing data symbolic) the library digest equals SHA-256 of the byte string that steps 3-14 of the Authenticode specification define; plus the io.ReaderAt contract of the positional multi-reader for all offsets/lengths.","2 C01"),
+ "C03":("For symbolic well-formed images and symbolic signature bytes/length, AppendSignature+Bytes yields exactly the specified signed file (original bytes, padding, table, WIN_CERTIFICATE header, directory entry spanning to end of file), also after several in-memory appends.","2 C03"),
  "C07":("All well-formed signature-database streams up to the byte bound (every byte and the length symbolic, restricted only by a reference recogniser of the UEFI layout) are accepted, decode to exactly the specified lists/owners/data, and re-encode to the same bytes (Bytes and Marshal/Unmarshal routes).","2 C07"),
  "C08":("For every byte string up to the bound (every byte and the length symbolic): if decoding succeeds, the lists tile the whole input, satisfy the EFI_SIGNATURE_LIST size equations and hold exactly the input bytes at the specified offsets; decided by SMT on every path.","2 C08"),
  "C10":("Descriptor and WIN_CERTIFICATE decoding consumes exactly the declared length, recovers every field, leaves the payload, and both round trips are identities, for every byte string up to the bound (all fields symbolic).","2 C10"),
@@ -14,6 +15,7 @@ claims={
  "C18":("Boot-order decoding decided for all 65 536 values of every entry symbolically: names are Boot + four upper-case hex digits.","2 C18"),
 }
 partial={
+ "C03":" Re-parse digest equality, embedded-digest and verify-after-sign parts of the statement are not decided by this check.",
  "C01":" The per-position flip statement is covered only through equality with the specification's stream.",
  "C14":" PEM key/certificate readers are not covered (encoding/pem, crypto/x509 not interpreted); the static enumeration of exit call sites is not yet part of this check.",
  "C17":" UTF-16 string conversions are not yet covered by this check.",
